@@ -1824,7 +1824,7 @@ Proof. vm_compute. reflexivity. Qed.
 
 (* ------------------------------------------------------------------ deferred functions that do not return *)
 
-Lemma verdict_of_marks_same v : verdict_of_marks v (marks_of v) = v.
+Lemma verdict_of_marks_same c v : verdict_of_marks v (catch_failnow c (marks_of v)) = v.
 Proof. destruct v; reflexivity. Qed.
 
 Lemma fold_after_defer_ret l m :
@@ -1838,7 +1838,7 @@ Qed.
 Lemma defers_verdict_all_return d v :
   (forall x, In x d -> defer_end x = DRet) -> defers_verdict d v = v.
 Proof.
-  intro H. unfold defers_verdict. rewrite fold_after_defer_ret; [apply verdict_of_marks_same|].
+  intro H. unfold defers_verdict, defers_verdict_gen. rewrite fold_after_defer_ret; [apply verdict_of_marks_same|].
   intros e He. apply in_map_iff in He as (x & <- & Hx). now apply H.
 Qed.
 
@@ -1854,6 +1854,9 @@ Proof.
   destruct H as [->|H]; [apply fold_after_defer_failed; reflexivity | now apply IH].
 Qed.
 
+Lemma catch_failnow_failed c m : m_failed m = true -> m_failed (catch_failnow c m) = true.
+Proof. intro H. unfold catch_failnow. destruct (m_panic m); try exact H. destruct c; [reflexivity | exact H]. Qed.
+
 Definition is_failure (v : verdict) : bool :=
   match v with VFail | VSetupFail | VPanic => true | _ => false end.
 
@@ -1863,22 +1866,110 @@ Lemma defers_verdict_keeps_failure d v :
   (v = VFail \/ v = VSetupFail \/ exists x, In x d /\ defer_end x = DFailNow) ->
   is_failure (defers_verdict d v) = true.
 Proof.
-  intro H. unfold defers_verdict.
-  assert (F : m_failed (fold_left after_defer (map defer_end d) (marks_of v)) = true).
-  { destruct H as [->|[->|(x & Hx & E)]]; [now apply fold_after_defer_failed | now apply fold_after_defer_failed|].
+  intro H. unfold defers_verdict, defers_verdict_gen.
+  assert (F : m_failed (catch_failnow deferred_failnow_caught (fold_left after_defer (map defer_end d) (marks_of v))) = true).
+  { apply catch_failnow_failed.
+    destruct H as [->|[->|(x & Hx & E)]]; [now apply fold_after_defer_failed | now apply fold_after_defer_failed|].
     apply fold_after_defer_failnow. rewrite <- E. now apply in_map. }
   unfold verdict_of_marks. rewrite F. destruct (m_panicking _); [reflexivity|]. now destruct v.
 Qed.
 
+(* Deferred functions that return or end with ts.Fatalf / ts.Check(err), at least one of the latter:
+   the failNow panic is on its way when the chain is through, whatever was on its way before. *)
+Lemma fold_after_defer_fatalf l m :
+  (forall e, In e l -> e = DRet \/ e = DFatalf) -> In DFatalf l ->
+  m_panic (fold_left after_defer l m) = PFailNow
+  /\ m_skipped (fold_left after_defer l m) = m_skipped m.
+Proof.
+  revert m. induction l as [|e l IH]; intros m H Hin; [destruct Hin|]. cbn [fold_left].
+  assert (Hl : forall e', In e' l -> e' = DRet \/ e' = DFatalf) by (intros e' He'; apply H; now right).
+  destruct (in_dec (fun a b : dend => ltac:(decide equality) : {a = b} + {a <> b}) DFatalf l) as [Hd|Hd].
+  - destruct (IH (after_defer m e) Hl Hd) as [P S]. split; [exact P|]. rewrite S.
+    destruct (H e (or_introl eq_refl)) as [->| ->]; reflexivity.
+  - destruct Hin as [->|Hin]; [|contradiction].
+    rewrite fold_after_defer_ret.
+    + split; reflexivity.
+    + intros e' He'. destruct (Hl e' He') as [->| ->]; [reflexivity | contradiction].
+Qed.
+
+Definition failed_verdict (v : verdict) : verdict := match v with VSetupFail => VSetupFail | _ => VFail end.
+
+(* ... and run() turns it into t.FailNow(): the run is reported failed - not a panic, not a pass, not a
+   skip - whatever its verdict was going to be (a panic of a custom command included: the new panic took
+   its place). *)
+Lemma defers_verdict_fatalf d v :
+  (forall x, In x d -> defer_end x = DRet \/ defer_end x = DFatalf) ->
+  (exists x, In x d /\ defer_end x = DFatalf) ->
+  defers_verdict d v = failed_verdict v.
+Proof.
+  intros H (x & Hx & Ex). unfold defers_verdict, defers_verdict_gen.
+  destruct (fold_after_defer_fatalf (map defer_end d) (marks_of v)) as [P S].
+  - intros e He. apply in_map_iff in He as (y & <- & Hy). now apply H.
+  - rewrite <- Ex. now apply in_map.
+  - unfold catch_failnow. rewrite P. change deferred_failnow_caught with true. cbv iota.
+    unfold verdict_of_marks, m_panicking. cbn [m_panic m_failed]. reflexivity.
+Qed.
+
+(* The step of run() that runs the deferred functions: whatever the functions do, every one of them
+   runs, most recent first, the stack is emptied, nothing else of the script changes (environment,
+   files, background commands: those are dealt with next, as on every path) - only the verdict depends
+   on how they end.  With functions that return or end in Fatalf it is a failure. *)
+Lemma sstep_defers cfg p s c ss v :
+  ph ss = Ending v SDefers ->
+  sstep cfg p s c ss
+  = (c, set_ph (set_dstack (add_obs ss (map (fun d => EvDeferRun (fst d)) (dstack ss))) []) (Ending (defers_verdict (dstack ss) v) SBgClean), NoEffect).
+Proof. intro H. unfold sstep. now rewrite H. Qed.
+
+Lemma fatalf_in_deferred_fails_the_run cfg p s c ss v :
+  ph ss = Ending v SDefers ->
+  (forall x, In x (dstack ss) -> defer_end x = DRet \/ defer_end x = DFatalf) ->
+  (exists x, In x (dstack ss) /\ defer_end x = DFatalf) ->
+  sstep cfg p s c ss
+  = (c, set_ph (set_dstack (add_obs ss (map (fun d => EvDeferRun (fst d)) (dstack ss))) []) (Ending (failed_verdict v) SBgClean), NoEffect).
+Proof. intros H A E. rewrite (sstep_defers _ _ _ _ _ _ H). now rewrite (defers_verdict_fatalf _ _ A E). Qed.
+
+(* Without the catch (the code before the repair) the failNow panic escapes RunT: under testing.T the
+   test binary dies of it. *)
+Lemma uncaught_fatalf_refuted :
+  exists d v, (forall x, In x d -> defer_end x = DRet \/ defer_end x = DFatalf) /\ v = VPass /\
+    defers_verdict_gen false d v = VPanic /\ defers_verdict_gen true d v = VFail.
+Proof. exists [(1, false); (400, false)], VPass. split; [|repeat split].
+  intros x [<-|[<-|[]]]; [now left | now right]. Qed.
+
 Example defers_verdict_examples :
   (* run order: the first of the list runs first.  A panic after a Skip is seen by the caller; a Skip after
-     a panic aborts the panic; FailNow sticks *)
+     a panic aborts the panic; FailNow sticks; Fatalf fails the run, also after a panic of a command, but a
+     Skip called by a function that runs after it aborts it like any other panic *)
   defers_verdict [(300, false); (7, true)] VPass = VPanic
   /\ defers_verdict [(7, true); (300, false)] VPass = VSkip
   /\ defers_verdict [(7, true); (300, false)] VFail = VFail
   /\ defers_verdict [(200, false); (300, false)] VStop = VFail
   /\ defers_verdict [(300, false)] VPanic = VSkip
-  /\ defers_verdict [(1, false); (2, false)] VStop = VStop.
+  /\ defers_verdict [(1, false); (2, false)] VStop = VStop
+  /\ defers_verdict [(2, false); (400, false); (1, false)] VPass = VFail
+  /\ defers_verdict [(400, false)] VPanic = VFail
+  /\ defers_verdict [(400, false); (7, true)] VPass = VPanic
+  /\ defers_verdict [(400, false); (300, false)] VPass = VSkip.
+Proof. vm_compute. repeat split. Qed.
+
+Example fatalf_in_deferred_example :
+  (* a.txt: a function registered by the script ends with ts.Fatalf, between two that return, a
+     background command running; b.txt next to it with a background command of its own: a is reported
+     failed (not a panic), all three functions of a (and Setup's) have run in reverse order, both
+     background commands were interrupted and waited for, b passes, both work directories and the root
+     are gone; the same as with a failing line in place of the Fatalf *)
+  let a := ex_script [ADefer 1 false; ADefer 400 false; ABg 1 false; ADefer 2 false; AProbe] in
+  let a' := ex_script [ADefer 1 false; ADefer 3 false; ABg 1 false; ADefer 2 false; AProbe; AFail] in
+  let b := ex_script [ABg 1 true; AProbe] in
+  let st := run ex_cfg [a; b] (init [a; b]) (round_robin 2 12) in
+  let st' := run ex_cfg [a'; b] (init [a'; b]) (round_robin 2 12) in
+  map ph (scripts st) = [Done VFail; Done VPass] /\ map ph (scripts st') = [Done VFail; Done VPass]
+  /\ map (fun ss => defer_runs (obs ss)) (scripts st) = [[2; 400; 1; 7]; [7]]
+  /\ map (fun ss => (bg_started (obs ss), bg_gone (obs ss), bg_waited (obs ss), wpresent ss, tr ss)) (scripts st)
+     = map (fun ss => (bg_started (obs ss), bg_gone (obs ss), bg_waited (obs ss), wpresent ss, tr ss)) (scripts st')
+  /\ map (fun ss => (bg_started (obs ss), bg_gone (obs ss), bg_waited (obs ss), wpresent ss, tr ss)) (scripts st)
+     = [([1], [1], [1], false, []); ([1], [1], [1], false, [])]
+  /\ root_present (sh st) = false /\ root_removals (sh st) = 1.
 Proof. vm_compute. repeat split. Qed.
 
 Example abnormal_defers_example :
